@@ -14,7 +14,7 @@ import subprocess
 import sys
 import time
 
-sys.path.insert(0, '/repo/src')
+sys.path.insert(0, __import__('os').environ.get('CKL_REPO', '/repo') + '/src')
 sys.path.insert(0, '/verif')
 
 from harness import session as S      # noqa: E402
